@@ -1,7 +1,7 @@
 (* C05 - stopping discipline: limits, termination and exit requests are honoured.  Statements only (proofs: Core/Stop_Proofs.v).
    They hold for every algorithm over the machine, every termination condition of the machine's language, every state. *)
 From Coq Require Import List ZArith QArith Bool.
-From MV Require Import Common.Num Core.Machine Core.Stop_Proofs Core.DE Core.DE_Proofs.
+From MV Require Import Common.Num Core.Machine Core.Stop_Proofs Core.DE Core.DE_Proofs Core.NM Core.NM_Proofs.
 Import ListNotations.
 Open Scope Z_scope.
 
@@ -73,19 +73,24 @@ Proof. exact solve_stops_on_message. Qed.
 Print Assumptions C05_solve_stops_on_message.
 
 (* "hence Solve always returns": for every algorithm whose iteration adds at least one record to the energy history
-   (and whose finalisation removes none), once the limits are absolute (they are after the first Terminated) the Solve
+   and keeps an invariant G of its own state, for well-formed oracle inputs V (and whose finalisation removes no record),
+   once the limits are absolute (they are after the first Terminated) the Solve
    loop stops by itself within (generation limit + 3 - current history length) Steps, whatever the termination
    condition, the cost function, the constraints and the oracle inputs are *)
 Theorem C05_solve_terminates :
-  forall (N : Num) (inf : T N) (C I : Type) (A : algo N C I),
-  (forall (s : sys N) (c : C) (i : I),
+  forall (N : Num) (inf : T N) (C I : Type) (A : algo N C I) (G : C -> Prop) (V : I -> Prop),
+  (forall (s : sys N) (c : C) (i : I), G c -> V i ->
      let r := run_prog inf (a_nested N C I A) s (a_step N C I A s c i) in
-     (S (ehlen N C I A s c) <= ehlen N C I A (set_stepmon N (fst r) (stepmon N (fst r) ++ snd (snd r))) (fst (snd r)))%nat) ->
+     (S (ehlen N C I A s c) <= ehlen N C I A (set_stepmon N (fst r) (stepmon N (fst r) ++ snd (snd r))) (fst (snd r)))%nat /\
+     G (fst (snd r))) ->
   (forall (s : sys N) (c : C),
      (ehlen N C I A s c <= ehlen N C I A (set_stepmon N s (stepmon N s ++ snd (a_finalize N C I A s c))) (fst (a_finalize N C I A s c)))%nat) ->
   (forall (s : sys N) (c : C) (i : I), a_ehist_extra N C I A (a_decorate N C I A s c i) = a_ehist_extra N C I A c) ->
+  (forall (s : sys N) (c : C) (i : I), G c -> V i -> G (a_decorate N C I A s c i)) ->
+  (forall (s : sys N) (c : C), G c -> G (fst (a_finalize N C I A s c))) ->
   (forall c : C, (length (a_ehist_extra N C I A c) <= 1)%nat) ->
   forall (f : nat) (s : sys N) (c : C) (is : list I) (dflt : I) (mi mf : Z),
+  G c -> Forall V is -> V dflt ->
   abs_limits N mi mf s -> 0 <= mi ->
   (Z.to_nat (mi + 3) <= S f + ehlen N C I A s c)%nat ->
   snd (solve N inf C I A (S f) s c is dflt) = true.
@@ -100,6 +105,19 @@ Theorem C05_de_solve_terminates :
   snd (solve N inf (de N) (de_in N) (de_algo N inf de2) (S f) s c is dflt) = true.
 Proof. exact de_solve_terminates. Qed.
 Print Assumptions C05_de_solve_terminates.
+
+(* ... and so does Nelder-Mead from every non-empty simplex, for every candidate stream and every argsort answer *)
+Theorem C05_nm_solve_terminates :
+  forall (N : Num) (inf : T N) (f : nat) (s : sys N) (c : nm N) (is : list (nm_in N)) (dflt : nm_in N) (mi mf : Z),
+  G_nm N c -> Forall (fun i => ndeco N i = None) is -> ndeco N dflt = None ->
+  abs_limits N mi mf s -> 0 <= mi ->
+  (Z.to_nat (mi + 3) <= S f + ehlen N _ _ (nm_algo N inf) s c)%nat ->
+  snd (solve N inf _ _ (nm_algo N inf) (S f) s c is dflt) = true.
+Proof. exact nm_solve_terminates. Qed.
+Print Assumptions C05_nm_solve_terminates.
+
+Example C05_nm_nonvacuous : forall (N : Num) (inf : T N) ndim, G_nm N (nm_init N inf ndim).
+Proof. intros. split; cbn [nm_init sim fsim]; [discriminate|]. now rewrite !repeat_length. Qed.
 
 (* non-vacuity: a state with a reached generation limit exists and Terminated reports it *)
 Example C05_nonvacuous : forall (C I : Type) (A : algo NumQ C I) (c : C),
